@@ -11,6 +11,15 @@ func baseCfg(prop string, r *Rng) GenCfg {
 	if r.Chance(0.3) {
 		c.BigRate = 0.3
 	}
+	if r.Chance(0.2) {
+		// a small configured call-depth limit on every node (all nodes alike, so they must still agree); no operation of the
+		// library nests deeper than ~160 calls
+		nodes := append([]NodeConfig{}, c.Nodes...)
+		for i := range nodes {
+			nodes[i].StackDepthLimit = 256
+		}
+		c.Nodes = nodes
+	}
 	return c
 }
 
@@ -25,6 +34,7 @@ func cfgFor(prop string, r *Rng) GenCfg {
 		c.BigRate = 0.3
 	case "C24":
 		f["storage"], f["resource"], f["container"], f["control"] = 4, 3, 2, 2
+		f["contract"], f["capability"], f["hostsvc"] = 2, 1, 1 // program effects other than storage writes that reach the host mid-execution
 		c.ScriptRate, c.FaultRate, c.FailRate = 0.3, 0.5, 0.25
 	case "C28":
 		f["storage"], f["resource"], f["container"], f["attachment"], f["event"], f["control"] = 3, 3, 2, 1, 1, 1
